@@ -64,6 +64,23 @@ class SymStr:
         return 'SymStr(%s, %s)' % (self.kind, self.s)
 
 
+class ZKey:
+    """A symbolic (z3 Int) dictionary key, hashable by term identity."""
+    __slots__ = ('e',)
+
+    def __init__(self, e):
+        self.e = e
+
+    def __eq__(self, o):
+        return isinstance(o, ZKey) and o.e.get_id() == self.e.get_id()
+
+    def __hash__(self):
+        return hash(('zkey', self.e.get_id()))
+
+    def __repr__(self):
+        return 'ZKey(%s)' % self.e
+
+
 class Ref:
     __slots__ = ('oid',)
 
